@@ -140,6 +140,102 @@ def filtered_stream(rng, d, k):
     return Stream({b"Marker": k, b"Filter": [N("ASCIIHexDecode")], b"DecodeParms": [None]}, ahx(raw))
 
 
+def big_xref_check(path):
+    """lightweight structural oracle (Python) for outputs too large for the extracted strict reader: newest cross-reference
+    section (table or stream, not linearized) -> every in-use entry points exactly at 'N G obj', every compressed entry names a
+    slot of an object stream that lists that object there, /Size = highest number + 1. Returns a list of problems."""
+    data = open(path, "rb").read()
+    m = re.search(rb"startxref\s+(\d+)\s+%%EOF\s*$", data[-200:])
+    if not m:
+        return ["no startxref/%%EOF tail"]
+    xoff = int(m.group(1))
+    probs = []
+    ents = {}
+    if data[xoff:xoff + 4] == b"xref":
+        pos = xoff + 4
+        mm = re.compile(rb"\s*(\d+) (\d+)\s*\n")
+        while True:
+            h = mm.match(data, pos)
+            if not h:
+                break
+            start, cnt = int(h.group(1)), int(h.group(2))
+            pos = h.end()
+            for i in range(cnt):
+                line = data[pos:pos + 20]
+                if not re.fullmatch(rb"\d{10} \d{5} [nf][ \r][\r\n]", line):
+                    return ["malformed xref line for object %d" % (start + i)]
+                ents[start + i] = (1 if line[17:18] == b"n" else 0, int(line[:10]), int(line[11:16]))
+                pos += 20
+        tm = re.search(rb"/Size (\d+)", data[pos:pos + 2000])
+        size = int(tm.group(1)) if tm else None
+    else:
+        h = re.match(rb"(\d+) (\d+) obj\s*<<(.*?)>>\s*stream\r?\n", data[xoff:xoff + 4000], re.S)
+        if not h:
+            return ["startxref %d points neither at 'xref' nor at an object" % xoff]
+        d = h.group(3)
+        W = [int(x) for x in re.search(rb"/W \[\s*(\d+) (\d+) (\d+)\s*\]", d).groups()]
+        size = int(re.search(rb"/Size (\d+)", d).group(1))
+        length = int(re.search(rb"/Length (\d+)", d).group(1))
+        im = re.search(rb"/Index \[([\d\s]+)\]", d)
+        index = [int(x) for x in im.group(1).split()] if im else [0, size]
+        raw = data[xoff + h.end():xoff + h.end() + length]
+        if b"/FlateDecode" in d:
+            raw = zlib.decompress(raw)
+            pm = re.search(rb"/Predictor (\d+)", d)
+            if pm and int(pm.group(1)) >= 10:
+                cols = int(re.search(rb"/Columns (\d+)", d).group(1))
+                out, prev = bytearray(), bytes(cols)
+                for r in range(0, len(raw), cols + 1):
+                    ft, row = raw[r], raw[r + 1:r + 1 + cols]
+                    if ft == 2:
+                        row = bytes((a + b) & 255 for a, b in zip(row, prev))
+                    elif ft != 0:
+                        return ["xref stream uses PNG filter type %d (oracle handles None/Up)" % ft]
+                    out += row
+                    prev = row
+                raw = bytes(out)
+        w = sum(W)
+        k = 0
+        for j in range(0, len(index), 2):
+            for n in range(index[j], index[j] + index[j + 1]):
+                e = raw[k * w:(k + 1) * w]
+                k += 1
+                if len(e) < w:
+                    return ["xref stream data too short"]
+                t = int.from_bytes(e[:W[0]], "big") if W[0] else 1
+                ents[n] = (t, int.from_bytes(e[W[0]:W[0] + W[1]], "big"), int.from_bytes(e[W[0] + W[1]:], "big"))
+    if size is not None and ents and size != max(ents) + 1:
+        probs.append("/Size %s but highest object number is %d" % (size, max(ents)))
+    ostm = {}
+    for n, (t, a, b) in sorted(ents.items()):
+        if t == 1:
+            want = b"%d %d obj" % (n, b)
+            if data[a:a + len(want)] != want or (a > 0 and data[a - 1:a] not in b"\n\r "):
+                probs.append("entry of object %d (offset %d) does not point at '%s'" % (n, a, want.decode()))
+        elif t == 2:
+            ostm.setdefault(a, []).append((b, n))
+    for snum, members in ostm.items():
+        e = ents.get(snum)
+        if not e or e[0] != 1:
+            probs.append("object stream %d of compressed entries is not an in-use object" % snum)
+            continue
+        h = re.match(rb"\d+ \d+ obj\s*<<(.*?)>>\s*stream\r?\n", data[e[1]:e[1] + 2000], re.S)
+        if not h:
+            probs.append("object stream %d unreadable" % snum)
+            continue
+        d = h.group(1)
+        length = int(re.search(rb"/Length (\d+)", d).group(1))
+        raw = data[e[1] + h.end():e[1] + h.end() + length]
+        if b"/FlateDecode" in d:
+            raw = zlib.decompress(raw)
+        N_ = int(re.search(rb"/N (\d+)", d).group(1))
+        nums = [int(x) for x in raw[:int(re.search(rb"/First (\d+)", d).group(1))].split()]
+        for idx, n in members:
+            if idx >= N_ or nums[2 * idx] != n:
+                probs.append("compressed entry of object %d names slot %d of stream %d, which holds %s" % (n, idx, snum, nums[2 * idx] if idx < N_ else "nothing"))
+    return probs[:5]
+
+
 # ------------------------------------------------------------------ generated inputs
 
 def gen_docs(rng, n, big=False):
